@@ -101,20 +101,20 @@ Section KeysNP.
   Lemma entry_elem_keys_np sfs keys mk fs : np (entry_elem_keys env ko sfs keys mk fs).
   Proof. unfold entry_elem_keys. destruct (entry_key_strs env ko sfs keys fs); auto with np; apply mapkey_strs_np. Qed.
 
-  Lemma ordered_keys_parse_np sfs ek : forall keys, np (ordered_keys_parse env sfs keys ek).
+  Lemma ordered_keys_parse_np sfs ek : forall keys, np (ordered_keys_parse env fo ko sfs keys ek).
   Proof.
     induction keys as [|k ks IH]; simpl; auto with np.
     destruct (al_find k ek) as [s|]; auto.
     destruct (key_field sfs k) as [[fi [t d| | | |]]|]; auto with np.
-    apply np_bind; [apply string_to_gotype_np|]. intros v _. apply np_bind; auto with np.
+    apply np_bind; [apply string_to_key_np|]. intros v _. apply np_bind; auto with np.
   Qed.
 
-  Lemma make_ordered_entry_np sfs ek : forall keys, np (make_ordered_entry env sfs keys ek).
+  Lemma make_ordered_entry_np sfs ek : forall keys, np (make_ordered_entry env fo ko sfs keys ek).
   Proof.
     induction keys as [|k ks IH]; simpl; auto with np.
     destruct (al_find k ek) as [s|]; auto with np.
     destruct (key_field sfs k) as [[fi [t d| | | |]]|]; auto with np.
-    apply np_bind; [apply string_to_gotype_np|]. intros v _. apply np_bind; auto with np.
+    apply np_bind; [apply string_to_key_np|]. intros v _. apply np_bind; auto with np.
   Qed.
 
   Lemma key_name_field_np : forall sfs k, np (key_name_field sfs k).
@@ -139,17 +139,18 @@ End KeysNP.
 (* ====================================================================================== *)
 Section GetNP.
   Variable env : enum_env.
+  Variable fo : float_oracle.
   Variable ko : key_oracle.
   Variable o : get_opts.
 
-  Lemma get_rec_np : forall f s cur p trav, np (get_rec env ko o f s cur p trav).
+  Lemma get_rec_np : forall f s cur p trav, np (get_rec env fo ko o f s cur p trav).
   Proof.
     induction f as [|f IH]; intros s cur p trav; [apply np_err|].
     destruct p as [|e0 prest]; [apply np_ok|].
     destruct cur as [t|].
     2:{ cbn [get_rec]. destruct s as [ty d| | | |]; [destruct (nonptr_leaf ty); auto with np|..];
           destruct (g_tolerate_nil o); auto with np. }
-    assert (Hstruct : forall sfs fs, np (get_struct env ko o f sfs fs (e0 :: prest) trav)).
+    assert (Hstruct : forall sfs fs, np (get_struct env fo ko o f sfs fs (e0 :: prest) trav)).
     { intros sfs fs. unfold get_struct. destruct (find_field (g_shadow o) false (e0 :: prest) sfs) as [fi ss alt [|]| |]; auto with np.
       destruct (is_leafish ss); auto with np. }
     destruct s as [ty d|ty mn mx|sfs|ord keys mn mx sfs|sfs], t as [v|vs|fs|es|us]; try apply np_err;
@@ -180,7 +181,7 @@ Section GetNP.
           apply np_bind; [apply IH|]. intros here _. apply np_bind; auto with np.
   Qed.
 
-  Theorem get_node_no_panic s t p : get_node env ko o s t p <> Panic.
+  Theorem get_node_no_panic s t p : get_node env fo ko o s t p <> Panic.
   Proof. apply get_rec_np. Qed.
 End GetNP.
 
@@ -189,6 +190,7 @@ End GetNP.
 (* ====================================================================================== *)
 Section DelNP.
   Variable env : enum_env.
+  Variable fo : float_oracle.
   Variable ko : key_oracle.
   Variable sh : bool.
 
@@ -230,38 +232,38 @@ Section DelNP.
     Qed.
   End DelLoopsNP.
 
-  Lemma del_rec_np : forall f s cur p, np (snd (del_rec env ko sh f s cur p)).
+  Lemma del_rec_np : forall f s cur p, np (snd (del_rec env fo ko sh f s cur p)).
   Proof.
     induction f as [|f IH]; intros s cur p; [apply np_err|].
     destruct p as [|e0 prest].
     { cbn [del_rec]. destruct cur as [[| | | |]|]; cbn [snd]; npd. }
     destruct cur as [t|].
     2:{ cbn [del_rec]. destruct s as [ty d| | | |]; cbn [snd]; npd. destruct (nonptr_leaf ty); cbn [snd]; npd. }
-    assert (Hstruct : forall sfs fs, np (snd (del_struct env ko sh f sfs fs (e0 :: prest)))).
+    assert (Hstruct : forall sfs fs, np (snd (del_struct env fo ko sh f sfs fs (e0 :: prest)))).
     { intros sfs fs. unfold del_struct. cbv zeta.
       destruct (find_field sh true (e0 :: prest) sfs) as [fi ss alt [|]| |]; cbn [snd]; npd.
       - destruct (is_leafish ss); npd.
       - destruct (Nat.eqb (length (e0 :: prest)) (consumed ss alt)); cbn [snd]; npd.
         pose proof (IH ss (field_get (f_go fi) fs) (skipn (consumed ss alt) (e0 :: prest))) as Hr.
-        destruct (del_rec env ko sh f ss (field_get (f_go fi) fs) (skipn (consumed ss alt) (e0 :: prest))) as [c' r].
+        destruct (del_rec env fo ko sh f ss (field_get (f_go fi) fs) (skipn (consumed ss alt) (e0 :: prest))) as [c' r].
         cbn [snd] in *. exact Hr. }
     destruct s as [ty d|ty mn mx|sfs|ord keys mn mx sfs|sfs], t as [v|vs|fs|es|us]; try apply np_err;
       try (destruct ord; apply np_err).
     - rewrite del_rec_cont. apply Hstruct.
     - rewrite del_rec_entry. apply Hstruct.
     - rewrite del_rec_list. destruct ord.
-      + pose proof (ordered_keys_parse_np env sfs (ekeys e0) keys) as Hp.
-        destruct (ordered_keys_parse env sfs keys (ekeys e0)); cbn [snd]; npd.
+      + pose proof (ordered_keys_parse_np env fo ko sfs (ekeys e0) keys) as Hp.
+        destruct (ordered_keys_parse env fo ko sfs keys (ekeys e0)); cbn [snd]; npd.
         apply del_oall_np. exact IH.
       + unfold del_list. cbv zeta. destruct keys as [|k [|k2 ks]]; try (apply del_all_np; exact IH).
         destruct (al_find k (ekeys e0)) as [pk|]; [apply del_first_np; exact IH|].
         destruct (nil_b es); cbn [snd]; npd.
   Qed.
 
-  Theorem delete_node_no_panic s t p t' : delete_node_st env ko sh s t p <> (t', Panic).
+  Theorem delete_node_no_panic s t p t' : delete_node_st env fo ko sh s t p <> (t', Panic).
   Proof.
     unfold delete_node_st. pose proof (del_rec_np (2 * length p + 2) s (Some t) p) as H.
-    destruct (del_rec env ko sh (2 * length p + 2) s (Some t) p) as [c r]. cbn [snd] in H. intros [= _ ->]. now apply H.
+    destruct (del_rec env fo ko sh (2 * length p + 2) s (Some t) p) as [c r]. cbn [snd] in H. intros [= _ ->]. now apply H.
   Qed.
 End DelNP.
 
@@ -413,13 +415,13 @@ Section SetNP.
         destruct r; cbn [snd] in *; npd.
     Qed.
 
-    Lemma set_oall_np s sfs keys nparsed : forall l acc n, np (snd (set_oall env ko o rec s sfs keys ek prest nparsed l acc n)).
+    Lemma set_oall_np s sfs keys nparsed : forall l acc n, np (snd (set_oall env fo ko o rec s sfs keys ek prest nparsed l acc n)).
     Proof.
       induction l as [|[mk e] more IHl]; intros acc n; cbn [set_oall].
       - destruct (Nat.eqb n O && s_init o); cbn [snd]; auto with np.
         destruct (negb (Nat.eqb nparsed (length keys))); cbn [snd]; auto with np.
-        pose proof (make_ordered_entry_np env sfs ek keys) as Hm.
-        destruct (make_ordered_entry env sfs keys ek) as [[mk nfs]| |]; cbn [snd]; npd.
+        pose proof (make_ordered_entry_np env fo ko sfs ek keys) as Hm.
+        destruct (make_ordered_entry env fo ko sfs keys ek) as [[mk nfs]| |]; cbn [snd]; npd.
         destruct (tl_find mk acc); cbn [snd]; auto with np.
         pose proof (Hrec s (Some (TCont nfs))) as Hr. destruct (rec s (Some (TCont nfs)) prest) as [e' r]. exact Hr.
       - pose proof (mapkey_strs_np env ko keys mk) as Hm. destruct (mapkey_strs env ko keys mk); cbn [bind snd]; npd.
@@ -457,8 +459,8 @@ Section SetNP.
     - rewrite set_rec_cont. apply Hstruct.
     - rewrite set_rec_entry. apply Hstruct.
     - rewrite set_rec_list. destruct ord.
-      + pose proof (ordered_keys_parse_np env sfs (ekeys e0) keys) as Hpk.
-        destruct (ordered_keys_parse env sfs keys (ekeys e0)); cbn [snd]; npd.
+      + pose proof (ordered_keys_parse_np env fo ko sfs (ekeys e0) keys) as Hpk.
+        destruct (ordered_keys_parse env fo ko sfs keys (ekeys e0)); cbn [snd]; npd.
         apply set_oall_np. intros s c. now apply IH.
       + unfold set_list. cbv zeta. destruct keys as [|k [|k2 ks]];
           try (apply set_all_np; auto; intros s c; now apply IH).
